@@ -83,6 +83,19 @@ def cases(tier, rng):
                 ops += traffic(t, others)
                 out.append("w%d.%s.%s sock %s / %s" % (k, t, kind, t, " / ".join(ops)))
                 k += 1
+    # an orderly close between messages (which the socket does not report: the listed finding) FOLLOWED by a failing write:
+    # that failure is an observation, after which the peer is forgotten and released like any other
+    for t in ("ROUTER", "DEALER"):
+        pt = PEER[t]
+        for nothers in (0, 1):
+            others = "bc"[:nothers]
+            for kind in ("BrokenPipe", "ConnectionReset"):
+                ops = ["attach %s %s" % (o, pt) for o in others] + ["attach a %s" % pt]
+                ops += ["feed a " + W.tok(b"".join(W.msg(m) for m in peer_msgs(t, b"a"))), "eof a", "recv", "recv", "recv"]
+                ops += ["wmode a broken=%s" % kind]
+                ops += traffic(t, others)
+                out.append("w%d.%s.%s sock %s / %s" % (k, t, kind, t, " / ".join(ops)))
+                k += 1
     return out
 
 
